@@ -104,7 +104,9 @@ def cases(tier, seed):
         shape = SHAPES[i % len(SHAPES)]
         npool = int(rng.integers(1, 7))
         c = {"id": "struct-%d" % i, "kind": "struct", "shape": shape, "pool": _gen_pool(rng, npool), "struct": _gen_struct(rng, shape, npool),
-             "model": ["alpha", "exact"][i % 2], "seed": [seed, "struct", i]}
+             "model": ["alpha", "exact"][i % 2], "seed": [seed, "struct", i],
+             # every fourth structure hands its sequences (orientation, translation, semi-axes, per-layer values) over as NumPy arrays
+             "arrays": bool(i % 4 == 2)}
         # priors outside the scatterer mostly come from their own objects, each used once; every fifth one is a prior object that
         # is ALSO used inside the scatterer (one distinct prior is one parameter wherever it is used: F110)
         extra = []
@@ -197,7 +199,7 @@ def _build_site(s, pool):
     if k == "chan":
         return {l: _build_site(v, pool) for l, v in s["d"].items()}
     if k == "list":
-        return [_build_site(v, pool) for v in s["items"]]
+        return _seq([_build_site(v, pool) for v in s["items"]])
     raise ValueError(k)
 
 
@@ -251,6 +253,18 @@ def _flat(prefix, s):
     return [(prefix, s)]
 
 
+_ARRAYS = [False]     # sequences of sites are handed over as NumPy (object) arrays instead of lists (set per case by _run_struct)
+
+
+def _seq(items):
+    if _ARRAYS[0]:
+        a = np.empty(len(items), dtype=object)
+        for i, v in enumerate(items):
+            a[i] = v
+        return a
+    return items
+
+
 def _build_scatterer(st, pool):
     from holopy.scattering.scatterer import Sphere, Spheres, Spheroid, Cylinder, RigidCluster
     B = lambda s: _build_site(s, pool)
@@ -266,12 +280,12 @@ def _build_scatterer(st, pool):
         # the members may be handed over in any sequence type (every third collection as a tuple: F120)
         return Spheres(tuple(mem) if len(mem) % 3 == 0 else mem, warn=False)
     if t == "spheroid":
-        return Spheroid(n=B(st["n"]), r=[B(x) for x in st["r"]], rotation=[B(x) for x in st["rotation"]], center=[B(c) for c in st["center"]])
+        return Spheroid(n=B(st["n"]), r=_seq([B(x) for x in st["r"]]), rotation=_seq([B(x) for x in st["rotation"]]), center=[B(c) for c in st["center"]])
     if t == "cylinder":
-        return Cylinder(n=B(st["n"]), h=B(st["h"]), d=B(st["d"]), rotation=[B(x) for x in st["rotation"]], center=[B(c) for c in st["center"]])
+        return Cylinder(n=B(st["n"]), h=B(st["h"]), d=B(st["d"]), rotation=_seq([B(x) for x in st["rotation"]]), center=[B(c) for c in st["center"]])
     if t == "rigid":
         base = Spheres([_build_scatterer(m, pool) for m in st["members"]], warn=False)
-        return RigidCluster(base, translation=[B(x) for x in st["translation"]], rotation=[B(x) for x in st["rotation"]])
+        return RigidCluster(base, translation=_seq([B(x) for x in st["translation"]]), rotation=_seq([B(x) for x in st["rotation"]]))
     raise ValueError(t)
 
 
@@ -425,6 +439,7 @@ def _mk_model(case, pool, scatterer):
 
 def _run_struct(case):
     from vf.monitors import digest
+    _ARRAYS[0] = bool(case.get("arrays"))
     pool = _make_pool(case["pool"])
     st = case["struct"]
     scatterer = _build_scatterer(st, pool)
@@ -672,6 +687,7 @@ def _run_roundtrip(case):
     from vf.monitors import digest
     from holopy.scattering.scatterer import Spheres
     rng = rng_for(*case["seed"])
+    _ARRAYS[0] = False        # (equality of rebuilt objects is claimed for list / scalar arguments)
     npool = 1
     st = _gen_struct(rng, case["shape"], npool)
     # make every site fixed
